@@ -4,7 +4,8 @@
 method bodies* of both classes are re-based onto SFloat (types.new_class with the real
 class's __dict__), and the names `JulianDate, ScenarioTime, float, int, round, floor,
 remainder, around, datetime, timedelta` are shadowed in the modules that use them for the
-duration of a run.  Nothing in /repo is edited.
+duration of a run.  __repr__/__str__ of the two classes (they format through julianDateToDatetime and are only
+used in log messages) are not carried over.  Nothing in /repo is edited.
 """
 from __future__ import annotations
 
@@ -16,7 +17,7 @@ from . import fp
 from .dtmodel import DatetimeModule, SDateTime, STimeDelta
 from .stubs import shadow
 
-_SKIP = {"__dict__", "__weakref__", "__module__", "__doc__", "__qualname__", "__firstlineno__", "__static_attributes__"}
+_SKIP = {"__repr__", "__str__", "__dict__", "__weakref__", "__module__", "__doc__", "__qualname__", "__firstlineno__", "__static_attributes__"}
 
 
 def rebase(real_cls, base=fp.SFloat):
